@@ -29,6 +29,7 @@ type Env struct {
 	locals bool // resolve identifiers to the current values of local variables first (loop invariants)
 	depth  int
 	unfold bool // expand the outermost opaque function application (reveal)
+	hyp    bool // the clause is being assumed (quantified bodies may carry typing facts)
 }
 
 func specFail(format string, a ...any) { panic(engineError{"spec: " + fmt.Sprintf(format, a...)}) }
@@ -158,8 +159,10 @@ func (env *Env) eval(x *SExpr) SV {
 			sub.vars[k] = v
 		}
 		var bs []string
+		c.n++
+		suffix := fmt.Sprintf("!%d", c.n)
 		for _, b := range x.Binders {
-			nm := "q_" + b
+			nm := "q_" + b + suffix
 			sub.vars[b] = mathInt(nm)
 			bs = append(bs, fmt.Sprintf("(%s Int)", nm))
 		}
@@ -170,14 +173,45 @@ func (env *Env) eval(x *SExpr) SV {
 				o.vars[k] = v
 			}
 			for _, b := range x.Binders {
-				o.vars[b] = mathInt("q_" + b)
+				o.vars[b] = mathInt("q_" + b + suffix)
 			}
 			sub.oldEnv = &o
 		}
 		c.raw++
+		if env.hyp && x.Op == "forall" {
+			c.rawFacts = append(c.rawFacts, nil)
+		}
 		body := sub.evalBool(x.Args[0])
+		if env.hyp && x.Op == "forall" {
+			// a quantified hypothesis carries the typing facts of the values it loads
+			facts := c.rawFacts[len(c.rawFacts)-1]
+			c.rawFacts = c.rawFacts[:len(c.rawFacts)-1]
+			if len(facts) > 0 {
+				seen := map[string]bool{}
+				var uniq []string
+				for _, f := range facts {
+					if !seen[f] {
+						seen[f] = true
+						uniq = append(uniq, f)
+					}
+				}
+				body = fmt.Sprintf("(and %s %s)", body, strings.Join(uniq, " "))
+			}
+		}
 		c.raw--
-		return mathBool(c.B("(%s (%s) %s)", x.Op, strings.Join(bs, " "), body))
+		t := c.B("(%s (%s) %s)", x.Op, strings.Join(bs, " "), body)
+		if c.raw == 0 && x.Op == "forall" {
+			if _, ok := c.quants[t]; !ok {
+				qi := &quantInfo{body: body, at: len(c.lines)}
+				for _, b := range x.Binders {
+					qi.src = append(qi.src, b)
+					qi.smt = append(qi.smt, "q_"+b+suffix)
+				}
+				c.quants[t] = qi
+				c.qorder = append(c.qorder, t)
+			}
+		}
+		return mathBool(t)
 	case "call":
 		return env.call(x)
 	}
@@ -301,8 +335,10 @@ func (env *Env) eqSeq(a SV, ai string, b SV, bi string, n string) string {
 	bo, boff := env.x.pinRaw(b.t[0]), env.x.pinRaw(c.I("(+ %s %s)", b.t[1], bi))
 	nn := env.x.pinRaw(n)
 	ha, hb := env.cur.heaps[ka], env.cur.heaps[kb]
-	return c.B("(forall ((q_k Int)) (=> (and (<= 0 q_k) (< q_k %s)) (= (select (select %s %s) (+ %s q_k)) (select (select %s %s) (+ %s q_k)))))",
-		nn, ha, ao, aoff, hb, bo, boff)
+	c.n++
+	q := fmt.Sprintf("qe!%d", c.n)
+	return c.B("(forall ((%[1]s Int)) (=> (and (<= 0 %[1]s) (< %[1]s %[2]s)) (= (select (select %[3]s %[4]s) (+ %[5]s %[1]s)) (select (select %[6]s %[7]s) (+ %[8]s %[1]s)))))",
+		q, nn, ha, ao, aoff, hb, bo, boff)
 }
 
 func (e *Exec) pinRaw(t string) string {
@@ -572,6 +608,38 @@ func (env *Env) call(x *SExpr) SV {
 			l = leaf{"int", 64, true}
 		}
 		return mathInt(c.wrap(argI(0), l))
+	case "samescalars":
+		// every bool/integer leaf of two struct values of the same type is equal
+		// (the field list comes from go/types: a field added later is covered)
+		need(2)
+		a, b := arg(0), arg(1)
+		if a.typ == nil || b.typ == nil || !types.Identical(a.typ, b.typ) {
+			specFail("samescalars: two values of the same struct type expected")
+		}
+		eq := "true"
+		var walk func(t types.Type, off int) int
+		walk = func(t types.Type, off int) int {
+			switch u := t.Underlying().(type) {
+			case *types.Struct:
+				for i := 0; i < u.NumFields(); i++ {
+					off = walk(u.Field(i).Type(), off)
+				}
+				return off
+			case *types.Array:
+				for i := int64(0); i < u.Len(); i++ {
+					off = walk(u.Elem(), off)
+				}
+				return off
+			case *types.Basic:
+				if u.Info()&(types.IsInteger|types.IsBoolean) != 0 {
+					eq = c.and(eq, c.B("(= %s %s)", a.t[off], b.t[off]))
+				}
+				return off + cells(t)
+			}
+			return off + cells(t)
+		}
+		walk(a.typ, 0)
+		return mathBool(eq)
 	case "held":
 		// held(m): ghost lock state of the mutex value/pointer m
 		need(1)
@@ -671,6 +739,9 @@ func (e *Exec) localByName(s *State, fn *ssa.Function, name string) (SV, bool) {
 			}
 		}
 	}
+	if best != nil && readOnlyParamSpill(best) {
+		best = nil // the local copy of a never-assigned parameter: use the parameter value itself
+	}
 	if best != nil {
 		r := s.regs[best]
 		et := best.Type().(*types.Pointer).Elem()
@@ -768,4 +839,35 @@ func (env *Env) reveal(x *SExpr) string {
 		return c.B("(= %s %s)", app.t[0], env.asBool(body, "reveal"))
 	}
 	return c.B("(= %s %s)", app.t[0], env.asInt(body, "reveal"))
+}
+
+// readOnlyParamSpill: a is the addressable copy of a parameter that is
+// initialised once from the parameter and never written again.
+func readOnlyParamSpill(a *ssa.Alloc) bool {
+	fn := a.Parent()
+	isParam := false
+	for _, p := range fn.Params {
+		if p.Name() == a.Comment {
+			isParam = true
+		}
+	}
+	if !isParam {
+		return false
+	}
+	derived := privateAlloc(a)
+	if derived == nil {
+		return false
+	}
+	stores := 0
+	for _, b := range fn.Blocks {
+		for _, in := range b.Instrs {
+			if st, ok := in.(*ssa.Store); ok && derived[st.Addr] {
+				if _, fromParam := st.Val.(*ssa.Parameter); !fromParam || st.Addr != ssa.Value(a) {
+					return false
+				}
+				stores++
+			}
+		}
+	}
+	return stores == 1
 }
